@@ -58,6 +58,10 @@ CHECKS = [
         "The real adder (importer pipeline, single and sharding DAG services, multi-destination BlockAdder over gorpc on a simulated network) adds generated file trees with generated import parameters to 1-4 destination peers while BlockPut fails at chosen blocks on chosen destinations (IPFS error, or the link to the destination is cut), the same block fails everywhere, or BlockAllocate / Cluster.Pin fail. On success the union of delivered blocks must be closed under links from the root, every file must read back byte-identical through the go-unixfs reader, the root must equal the root computed without sharding and (single files) by the go-unixfs importer called directly, and exactly the expected pins must have reached Cluster.Pin (single: root with the requested options and the allocations the blocks were sent to; sharded: meta + cluster-DAG + shards whose links cover every content block exactly once, each shard under its limit and pinned deep enough for its links DAG). On failure no root/meta pin may exist. Sampling, not proof.",
         "Cluster.BlockAllocate/Pin and IPFSConnector.BlockPut are recording models; the file-tree and parameter dimension is input generation carried because the fault and multi-destination dimensions need realistic DAGs.",
         "DESIGN.md §6 C13", "addersim"),
+    chk("C14", "exploration",
+        "In the raftsim world a generated pinset is built on a real single-peer Raft, stopped gracefully (snapshot on shutdown), read with OfflineState, exported as a JSON stream through the real StateManager, imported into another base directory that may already hold a different pinset (import replaces), and a peer is started on the imported snapshot; then CleanupRaft is called 1-5 times with backups_rotate 1-6 and pre-existing backups while a directory model predicts the raft.old.N folders and the newest backup must still yield the pre-clean pinset; then a peerstore file is saved, polluted with malformed lines and loaded by a fresh host (same addresses, same priority order, no abort). Sampling over pinsets, rotation histories and peerstore contents.",
+        "Serialise/deserialise and peerstore clauses are round trips; only starting a peer on a snapshot and the snapshot written at shutdown depend on the simulated system (DESIGN.md §6 C14 says so). Pins with origins are excluded (known finding of C01).",
+        "DESIGN.md §6 C14", "raftsim"),
     chk("C16", "exploration",
         "The real ipfshttp connector talks to a scripted in-memory IPFS HTTP daemon (installed as http.DefaultTransport) under the fake clock; the plan scripts the behaviour of every HTTP request of the pin-ls / swarm-connect / pin-update / pin-add-with-progress / pin-rm conversation (success, IPFS error body, non-JSON error, transport error, no answer, garbage, progress at chosen gaps then final object / stall / connection drop / X-Stream-Error trailer) for every pin kind and prior daemon state, the first call of each plan being drawn systematically from that product. Oracle: nil implies the daemon's pin table holds (or lacks) the CID in the asked mode at return; failed essential requests surface as errors; nothing is requested when already pinned as asked; unpin of an absent CID succeeds; a stalled pin is abandoned within 2 x PinTimeout + 1 s of the last progress; pin/update only with a recursively pinned source, with unpin=false. Sampling with a systematic component, not proof.",
         "The daemon is a model (go-ipfs error strings and go-ipfs-cmds trailer semantics as read from the vendored sources); a pin/add takes effect with its final stream object unless cancelled; a never-answering pin/update is not generated (the statement lists no such behaviour; the connector has no timeout there).",
@@ -93,7 +97,7 @@ def main():
         "engines": [
             {"name": "clustersim", "path": "/verif/harness/clustersim", "serves_properties": ["C03", "C04", "C07", "C09", "C10"], "kind_free_text": "real ipfscluster.Cluster + real allocators on mocknet against model consensus/monitor/tracker/IPFS"},
             {"name": "ipfshttpsim", "path": "/verif/harness/ipfshttpsim", "serves_properties": ["C16"], "kind_free_text": "real ipfshttp.Connector against a scripted in-memory HTTP daemon (http.DefaultTransport) under the fake clock"},
-            {"name": "raftsim", "path": "/verif/harness/raftsim", "serves_properties": ["C01"], "kind_free_text": "real consensus/raft + go-libp2p-raft + hashicorp/raft + BoltDB on mocknet with tmpfs data folders, kill/restart, recording datastore"},
+            {"name": "raftsim", "path": "/verif/harness/raftsim", "serves_properties": ["C01", "C14"], "kind_free_text": "real consensus/raft + go-libp2p-raft + hashicorp/raft + BoltDB on mocknet with tmpfs data folders, kill/restart, recording datastore"},
             {"name": "crdtsim", "path": "/verif/harness/crdtsim", "serves_properties": ["C02", "C07"], "kind_free_text": "real consensus/crdt + go-ds-crdt + ipfs-lite + gossipsub + DHT on mocknet, fault-injecting datastore"},
             {"name": "addersim", "path": "/verif/harness/addersim", "serves_properties": ["C13"], "kind_free_text": "real adder + ipfsadd + single/sharding DAG services + BlockAdder over gorpc on mocknet against recording Cluster/IPFSConnector services with per-(block,destination) faults"},
             {"name": "monsim", "path": "/verif/harness/monsim", "serves_properties": ["C09"], "kind_free_text": "real metrics Store/Window/Checker and pubsubmon over gossipsub on mocknet under the fake clock"},
